@@ -338,6 +338,48 @@ theorem iterMin_sound {child : Gen} {R : Nat → Nat → Prop} (hc : GenSound ch
       subst this
       exact ⟨rfl, hk⟩
 
+/-- a zero-width iteration can be repeated -/
+theorem IterR.pad {R : Nat → Nat → Prop} {j q p : Nat} (hr : R p p) (h : IterR R j q p) :
+    ∀ m, IterR R (j + m) q p
+  | 0 => h
+  | m+1 => .succ (IterR.pad hr h m) hr
+
+/-- the minimum loop with the zero-width shortcut (fix abfdb8a): still `min` iterations of `R` -/
+theorem iterMinZ_sound {child : Gen} {R : Nat → Nat → Prop} (hc : GenSound child R) (min start : Nat) :
+    ∀ fuel count pos st c' pos' st', IterR R count start pos → count ≤ min →
+      iterMinZ child min fuel count pos st = (some (c', pos'), st') →
+      c' = min ∧ IterR R min start pos' := by
+  intro fuel
+  induction fuel with
+  | zero =>
+    intro count pos st c' pos' st' _ _ h
+    simp [iterMinZ] at h
+  | succ f ih =>
+    intro count pos st c' pos' st' hk hle h
+    unfold iterMinZ at h
+    split at h
+    · rename_i hlt
+      split at h
+      · rename_i n x st1 heq
+        have hr : R pos n := first1_sound (hc pos st) heq
+        split at h
+        · rename_i hnp
+          simp only [beq_iff_eq] at hnp
+          subst hnp
+          simp only [Prod.mk.injEq, Option.some.injEq] at h
+          obtain ⟨⟨rfl, rfl⟩, _⟩ := h
+          have := IterR.pad hr hk (min - count)
+          rw [show count + (min - count) = min by omega] at this
+          exact ⟨rfl, this⟩
+        · exact ih _ _ _ _ _ _ (.succ hk hr) (by omega) h
+      · simp at h
+    · rename_i hge
+      simp only [Prod.mk.injEq, Option.some.injEq] at h
+      obtain ⟨⟨rfl, rfl⟩, _⟩ := h
+      have : count = min := by omega
+      subst this
+      exact ⟨rfl, hk⟩
+
 theorem relMore_sound {child : Gen} {R : Nat → Nat → Prop} (hc : GenSound child R) (min max start : Nat) :
     ∀ fuel count pos st, IterR R count start pos → min ≤ count →
       (relMore child max fuel count pos st).All (fun q => ∃ k, min ≤ k ∧ k ≤ max ∧ IterR R k start q) := by
@@ -388,7 +430,7 @@ theorem repReluctantGen_sound {child : Gen} {R : Nat → Nat → Prop} (hc : Gen
   split
   · exact .nil _
   · rename_i count pos st' heq
-    obtain ⟨rfl, hk⟩ := iterMin_sound hc min p _ _ _ _ _ _ _ (.zero p) (Nat.zero_le _) heq
+    obtain ⟨rfl, hk⟩ := iterMinZ_sound hc min p _ _ _ _ _ _ _ (.zero p) (Nat.zero_le _) heq
     apply Step.All.force
     exact .cons _ _ _ ⟨count, Nat.le_refl _, hmm, hk⟩
       (fun st'' => relMore_sound hc count max p _ _ _ _ hk (Nat.le_refl _))
